@@ -51,19 +51,34 @@ def _collect_pow(expr: Pow) -> tuple[Expr, Dimension]:
     raise ValueError(f"Dimension of '{expr.exp}' is {exp_dim}, but it should be dimensionless")
 
 
-@_elementwise_wrapper
-def _collect_add(factor: Expr, dim: Dimension, arg: Expr) -> tuple[Expr, Dimension]:
-    arg_factor, arg_dim = collect_quantity_factor_and_dimension(arg)
+def _collect_same_dimension(
+    expr: Expr,
+    combine: Callable[[Expr, Expr], Expr],
+) -> tuple[Expr, Dimension]:
+    # All terms that are not of any dimension must have equivalent dimensions. Note that a partial
+    # result of any dimension (e.g. the sum of `1 m` and `-1 m`) does not make its terms so.
+    factor, dim = None, None
 
-    if is_any_dimension(factor):
+    for arg in expr.args:
+        arg_factor, arg_dim = collect_quantity_factor_and_dimension(arg)
+
+        if not is_any_dimension(arg_factor):
+            if dim is None:
+                dim = arg_dim
+            elif not dimsys_SI.equivalent_dims(dim, arg_dim):
+                raise ValueError(f"Dimension of '{arg}' is {arg_dim}, but it should be {dim}")
+
+        factor = arg_factor if factor is None else combine(factor, arg_factor)
+
+    # all terms are of any dimension
+    if dim is None:
         dim = arg_dim
-    elif is_any_dimension(arg_factor):
-        arg_dim = dim
 
-    if not dimsys_SI.equivalent_dims(dim, arg_dim):
-        raise ValueError(f"Dimension of '{arg}' is {arg_dim}, but it should be {dim}")
+    return (factor, dim)
 
-    return (factor + arg_factor, dim)
+
+def _collect_add(expr: Add) -> tuple[Expr, Dimension]:
+    return _collect_same_dimension(expr, lambda factor, arg_factor: factor + arg_factor)
 
 
 def _collect_abs(expr: Abs) -> tuple[Expr, Dimension]:
@@ -72,22 +87,7 @@ def _collect_abs(expr: Abs) -> tuple[Expr, Dimension]:
 
 
 def _collect_min_max(expr: MinMaxBase) -> tuple[Expr, Dimension]:
-    cls = type(expr)
-
-    def collect(factor: Expr, dim: Dimension, arg: Expr) -> tuple[Expr, Dimension]:
-        arg_factor, arg_dim = collect_quantity_factor_and_dimension(arg)
-
-        if is_any_dimension(factor):
-            dim = arg_dim
-        elif is_any_dimension(arg_factor):
-            arg_dim = dim
-
-        if not dimsys_SI.equivalent_dims(dim, arg_dim):
-            raise ValueError(f"Dimension of '{arg}' is {arg_dim}, but it should be {dim}")
-
-        return (cls(factor, arg_factor), dim)
-
-    return _elementwise_wrapper(collect)(expr)
+    return _collect_same_dimension(expr, type(expr))
 
 
 def _collect_function(expr: SymFunction) -> tuple[Expr, Dimension]:
